@@ -427,13 +427,65 @@ def cases(tier):
                 yield list(scn), dict(logger=(name, 'stderr', n), tcr='off', stats=False, debug=False)
 
 
+# ------------------------------------------------------------------------------------------
+# the mock connection's own (non-WBEM) methods under statistics: same outcome with and without
+
+def mock_api_cases():
+    for shape in ('single', 'list', 'nested', 'list-with-duplicate'):
+        for ns in (None, 'root/cimv2'):
+            for method in ('add_cimobjects', 'compile_mof_string'):
+                yield dict(check='mock-api', method=method, shape=shape, namespace=ns)
+
+
+def _mock_api_outcome(case, stats):
+    import pywbem_mock
+    from pywbem import CIMClass, CIMProperty
+    conn = pywbem_mock.FakedWBEMConnection(stats_enabled=stats)
+
+    def cls(n):
+        return CIMClass(n, properties=[CIMProperty('k', None, type='string')])
+    objs = {'single': cls('A'), 'list': [cls('A'), cls('B')], 'nested': [cls('A'), [cls('B'), [cls('C')]]],
+            'list-with-duplicate': [cls('A'), cls('A')]}[case['shape']]
+    try:
+        if case['method'] == 'add_cimobjects':
+            conn.add_cimobjects(objs, namespace=case['namespace'])
+        else:
+            flat = []
+
+            def fl(o):
+                if isinstance(o, list):
+                    for x in o:
+                        fl(x)
+                else:
+                    flat.append(o)
+            fl(objs)
+            conn.compile_mof_string(''.join(o.tomof() for o in flat), namespace=case['namespace'])
+        out = ['ok']
+    except Exception as exc:   # noqa: compared between the two runs
+        out = ['raised', type(exc).__name__]
+    return out + [sorted(conn.EnumerateClassNames(namespace=case['namespace']))]
+
+
+def check_mock_api(case, acc):
+    b, o = _mock_api_outcome(case, False), _mock_api_outcome(case, True)
+    acc.case(('mock-api', json.dumps(case, sort_keys=True)), nontrivial=True,
+             outcome='mock-api:%s|%s' % (o[0], 'same' if o == b else 'DIFFERS'), calls=4)
+    if o != b:
+        acc.violation(dict(check='mock-api', what='outcome-differs-with-statistics', method=case['method']),
+                      case, b, o)
+
+
 def plan(tier, seed):
-    return [dict(check='observers', part=i, of=NSHARDS) for i in range(NSHARDS)]
+    return [dict(check='observers', part=i, of=NSHARDS) for i in range(NSHARDS)] + [dict(check='mock-api')]
 
 
 def run_shard(shard, tier):
     warnings.simplefilter('ignore')
     acc = Acc()
+    if shard['check'] == 'mock-api':
+        for case in mock_api_cases():
+            check_mock_api(case, acc)
+        return acc
     for i, (scn, cfg) in enumerate(cases(tier)):
         if i % shard['of'] == shard['part']:
             compare(scn, cfg, acc)
@@ -443,6 +495,9 @@ def run_shard(shard, tier):
 def replay(case, tier):
     warnings.simplefilter('ignore')
     acc = Acc()
+    if case.get('check') == 'mock-api':
+        check_mock_api(case, acc)
+        return acc
     cfg = case['config']
     if cfg is None:
         cfg = dict(logger=None, tcr='off', stats=False, debug=False)
